@@ -119,18 +119,23 @@ MODULE_PREFIXES = {"np", "xp", "scipy", "logger", "logging", "os", "math", "stat
 
 
 class Why:
-    __slots__ = ("rel", "qual", "stmt", "line", "chain", "what")
+    __slots__ = ("rel", "qual", "stmt", "line", "chain", "what", "astmt")
 
-    def __init__(self, rel, qual, stmt, line, what, chain=()):
+    def __init__(self, rel, qual, stmt, line, what, chain=(), astmt=None):
         self.rel, self.qual, self.stmt, self.line, self.what, self.chain = rel, qual, stmt, line, what, tuple(chain)
+        self.astmt = astmt if astmt is not None else stmt
 
     def via(self, where):
         if where in self.chain or len(self.chain) > 8:
             return self
-        return Why(self.rel, self.qual, self.stmt, self.line, self.what, self.chain + (where,))
+        return Why(self.rel, self.qual, self.stmt, self.line, self.what, self.chain + (where,), self.astmt)
 
     def key(self):
         return f"{self.qual}: {self.stmt}"
+
+    def akey(self):
+        """key with local variable names abstracted (survives renaming of locals)"""
+        return f"{self.qual}: {self.astmt}"
 
     def __repr__(self):
         return f"{self.rel}::{self.qual}:{self.line} `{self.stmt}` ({self.what})" + (f" <- {' <- '.join(self.chain)}" if self.chain else "")
@@ -452,7 +457,12 @@ class FuncAnalyzer:
                 self.S.bump(r[1], l2, why, part=wrap_depth(t) > 0)
 
     def why(self, node, what):
-        return Why(self.fi.rel, self.fi.qual, norm_stmt(node, 110), getattr(node, "lineno", None), what)
+        try:
+            from .src import alpha_text
+            a = alpha_text(self.fi.node, node, 110)
+        except Exception:
+            a = None
+        return Why(self.fi.rel, self.fi.qual, norm_stmt(node, 110), getattr(node, "lineno", None), what, (), a)
 
     # ------------------------------------------------------------------ statements
     def block(self, stmts, env):
